@@ -161,13 +161,14 @@ static const uint32_t SHAPES[4][2] = { { 1, 1 }, { 3, 2 }, { 5, 1 }, { 33, 3 } }
 static const char* METAS[3] = { "", "{}", "{\"a\":1,\"b\":{\"c\":\"d\"}}" };
 static const double SCALES[3][2] = { { 1, 1 }, { 0.5, 2 }, { 0, 0 } };
 struct Cyc { int n, group, meta, scale, uri; };
-struct Spec { int kind, shape, type, ncyc; Cyc c[2]; int short_at = -1, short_kind = 0; /* one short/zero write at this pwrite index */ int mix = 0; /* frame i has shape (shape + i) mod 4: frames of different sizes within one packet */ };
+struct Spec { int kind, shape, type, ncyc; Cyc c[2]; int short_at = -1, short_kind = 0; /* one short/zero write at this pwrite index */ int mix = 0; /* frame i has shape (shape + i) mod 4: frames of different sizes within one packet */ int intruder = -1; /* >= 0: after this many appends of cycle 0 a second device of the same kind is set to the same target and started (stop, close) */ };
 static std::string spec_str(const Spec& s)
 {
     char b[200]; snprintf(b, sizeof b, "kind=%d,shape=%d,type=%d,cycles=%d", s.kind, s.shape, s.type, s.ncyc); std::string o = b;
     for (int i = 0; i < s.ncyc; ++i) { snprintf(b, sizeof b, ";n=%d,group=%d,meta=%d,scale=%d,uri=%d", s.c[i].n, s.c[i].group, s.c[i].meta, s.c[i].scale, s.c[i].uri); o += b; }
     if (s.short_at >= 0) { snprintf(b, sizeof b, ";short=%d,%d", s.short_at, s.short_kind); o += b; }
     if (s.mix) o += ";mix=1";
+    if (s.intruder >= 0) o += ";intruder=" + std::to_string(s.intruder);
     return o;
 }
 static bool parse_spec(const std::string& t, Spec& s)
@@ -179,10 +180,11 @@ static bool parse_spec(const std::string& t, Spec& s)
     s.short_at = -1; s.short_kind = 0;
     size_t q = t.find(";short="); if (q != std::string::npos) sscanf(t.c_str() + q, ";short=%d,%d", &s.short_at, &s.short_kind);
     s.mix = t.find(";mix=1") != std::string::npos;
+    s.intruder = -1; { size_t q2 = t.find(";intruder="); if (q2 != std::string::npos) s.intruder = atoi(t.c_str() + q2 + 10); }
     return true;
 }
 
-static unsigned long long g_refused, g_parsed, g_after_failure;
+static unsigned long long g_refused, g_parsed, g_after_failure, g_intrusions;
 static int g_last_writes;
 static std::string execute(const Spec& s)
 {
@@ -215,6 +217,23 @@ static std::string execute(const Spec& s)
         std::vector<Expect> frames;
         std::vector<uint8_t> packet;
         bool failed_append = false; int ok_frames = 0, pk = 0, pk_frames = 0;
+        int nappends = 0;
+        auto intrude = [&]() {
+            // whatever becomes of the second device's start, the first device's file still holds the first device's frames
+            struct Storage* other = dev_open(s.kind);
+            if (!other) return;
+            struct StorageProperties p2; memset(&p2, 0, sizeof p2);
+            struct PixelScale ps2 = { 1, 1 };
+            // (same metadata as the first device: tiff-json writes metadata.json into the shared directory before it opens data.tif)
+            storage_properties_init(&p2, 0, uri.c_str(), uri.size() + 1, meta.empty() ? nullptr : meta.c_str(), meta.empty() ? 0 : meta.size() + 1, ps2, 0);
+            DEV(storage_set(other, &p2));
+            storage_properties_destroy(&p2);
+            DEV(storage_start(other));
+            DEV(storage_stop(other));
+            DEV(storage_close(other));
+            ++g_intrusions;
+        };
+        if (ci == 0 && s.intruder == 0) intrude();
         for (int i = 0; i < c.n; ++i) {
             const int sh = s.mix ? (s.shape + i) % 4 : s.shape;
             Expect e; e.spec = { SHAPES[sh][0], SHAPES[sh][1], s.type, (uint64_t)i };
@@ -236,6 +255,7 @@ static std::string execute(const Spec& s)
                 }
                 if (rc != Device_Ok) { verdict = "append-failed|storage_append failed without any injected fault"; break; }
                 packet.clear(); pk_frames = 0;
+                if (ci == 0 && s.intruder == ++nappends) intrude();
             }
         }
         int failed_in_appends = ENV.failed_writes;
@@ -379,6 +399,9 @@ int main(int argc, char** argv)
                                         if (scale != 0 || uri != 0 || (shape != 1 && shape != 3)) continue; // second-cycle variants on a sub-product
                                         for (int n2 = 1; n2 <= 2; ++n2) for (int meta2 = 0; meta2 < 3; ++meta2) { Spec t = s; t.ncyc = 2; t.c[1] = { n2, 0, meta2, 0, 0 }; todo.push_back(t); }
                                     }
+                                    // a second device of the same kind pointed at the target being written, after every append
+                                    if (cycles == 1 && meta == 2 && scale == 0 && uri == 0 && (shape == 1 || shape == 3) && (type == 0 || type == 4))
+                                        for (int k = 0; k <= n; ++k) { Spec t = s; t.intruder = k; todo.push_back(t); }
                                     // frames of different shapes (and sizes) within one acquisition and within one packet
                                     if (cycles == 1 && n >= 2 && meta == 2 && scale == 0 && uri == 0) { Spec t = s; t.mix = 1; todo.push_back(t); }
                                     // one short / 1-byte / zero write at every pwrite index, on a sub-product (the OS may complete any write partially)
@@ -416,7 +439,7 @@ int main(int argc, char** argv)
     h_rmtree(g_scratch);
     double wall = std::chrono::duration<double>(std::chrono::steady_clock::now() - t0).count();
     FILE* f = out.empty() ? stdout : fopen(out.c_str(), "w");
-    fprintf(f, "{\"files_judged_after_a_failed_append\":%llu,\"runs_with_a_short_or_zero_write\":%llu,\"large_files_over_4GiB\":%llu,\"cycles\":%d,\"runs\":%llu,\"configurations_refused_by_the_device\":%llu,\"files_parsed\":%llu,\"exhaustive\":true,\"wall_s\":%.3f,\"samples\":[", g_after_failure, short_runs, large, cycles, runs, g_refused, g_parsed, wall);
+    fprintf(f, "{\"runs_with_a_second_device_on_the_same_target\":%llu,\"files_judged_after_a_failed_append\":%llu,\"runs_with_a_short_or_zero_write\":%llu,\"large_files_over_4GiB\":%llu,\"cycles\":%d,\"runs\":%llu,\"configurations_refused_by_the_device\":%llu,\"files_parsed\":%llu,\"exhaustive\":true,\"wall_s\":%.3f,\"samples\":[", g_intrusions, g_after_failure, short_runs, large, cycles, runs, g_refused, g_parsed, wall);
     for (size_t i = 0; i < samples.size(); ++i) fprintf(f, "%s\"%s\"", i ? "," : "", json_esc(samples[i]).c_str());
     fprintf(f, "],\"violations\":[");
     bool first = true;
